@@ -170,3 +170,18 @@ Print Assumptions C07_async_covered_by_sync.
 Print Assumptions C07_spec_exit0_iff_all_ok.
 Print Assumptions C07_spec_failure_is_last.
 Print Assumptions C07_spec_runs_are_syncs.
+
+(* ---- arbitrary command sequences against the doer (Model/DoerOps.v; the doer-ops unit driver compares the real doer thread with it) *)
+From RJ Require Import Model.DoerOps Proofs.DoerOpsProofs Proofs.WfProofs.
+Theorem C07_any_sequence_touches_only_named_paths : forall fl cs st p,
+  Forall (fun c => cmd_path c <> Some p) cs -> fget (d_fs (fst (doer_run fl st cs))) p = fget (d_fs st) p.
+Proof. exact doer_run_frame. Qed.
+Theorem C07_any_sequence_keeps_the_tree_well_formed : forall fl cs st, wfu (d_fs st) -> wfu (d_fs (fst (doer_run fl st cs))).
+Proof. exact doer_run_wfu. Qed.
+Theorem C07_any_sequence_error_leaves_tree : forall fl cs st k c e,
+  nth_error cs k = Some c -> nth_error (snd (doer_run fl st cs)) k = Some (Some e) -> e <> EWrite ->
+  d_fs (fst (doer_exec fl (state_before fl st cs k) c)) = d_fs (state_before fl st cs k).
+Proof. exact doer_run_errors. Qed.
+Print Assumptions C07_any_sequence_touches_only_named_paths.
+Print Assumptions C07_any_sequence_keeps_the_tree_well_formed.
+Print Assumptions C07_any_sequence_error_leaves_tree.
